@@ -510,7 +510,7 @@ fn call_contexts(src: &mut Src, st: &mut Stats, _env: &Env) -> CaseResult {
         "{C}", "z | {C}[]", "z | {C}.*", "{C}[]", "{C}[*]", "{C}.*", "[{C}]", "{k: {C}}", "xs[*].{C}", "objs[*].{C}", "z || {C}", "z && {C}", "n && {C}", "n || {C}", "!{C}", "{C} == {C}", "xs[?{C}]",
         "objs[?{C} == `1`]", "{C} | [0]", "z | {C}", "z.{C}", "o.{C}", "type({C})", "length(to_array({C}))", "map(&{C}, xs)", "sort_by(objs, &{C})", "z | {C}[0]", "z | [{C}][]", "(z | {C})[]", "z[*].{C}",
         "z.*.{C}", "[z][*].{C}", "[z, n][*].{C}", "z | {C}[?@]", "z | {C}[1:]", "z | ({C})[]", "z | [{C}, {C}]", "z | {k: {C}}.k[]", "n | {C}[]", "xs | {C}[]", "z | {C} | []", "[z | {C}[], n | {C}.*]",
-        "z | to_array({C})[]", "objs[*].[z | {C}[]]", "xs[?z | {C}[]]", "z | {C}[] || `1`", "z | ({C}[] || `1`)", "z | nope({C})", "z | {C}[::0]",
+        "z | to_array({C})[]", "[{C}, type(@)]", "[type(@), {C}]", "{a: {C}, b: length(xs)}", "to_array({C}) == to_array(xs)", "[length(xs), {C}, nope2(@)]", "objs[*].[z | {C}[]]", "xs[?z | {C}[]]", "z | {C}[] || `1`", "z | ({C}[] || `1`)", "z | nope({C})", "z | {C}[::0]",
     ];
     let calls = ["rec(@)", "rec(n)", "rec(a)", "rec(xs)", "rec(o)", "rec(z)", "rec(`1`)", "rec(@.n)", "rec(objs)", "rec(objs[0])", "rec([n, s])", "rec(rec(xs))"];
     let ctx = *src.pick(&contexts);
@@ -544,6 +544,39 @@ fn call_contexts(src: &mut Src, st: &mut Stats, _env: &Env) -> CaseResult {
                 format!("{} gives {:?} but {} gives {}", text, g.as_ref().map(|v| v.to_string()).map_err(|e| classify(e).detail), model_text, w.brief()),
                 case,
             ))
+        }
+    }
+    // the same expression as an object assembled by hand from the public Ast (all offsets
+    // equal, or small random ones) and bound to the same runtime with Expression::new
+    if let Ok(tree) = refparse::parse(&text, Mode::Strict) {
+        let shape = lower(&tree);
+        let mode = src.below(3);
+        let mut k = 0usize;
+        let mut next = move || -> usize {
+            k += 1;
+            match mode {
+                0 => 0,
+                1 => 5,
+                _ => k % 3,
+            }
+        };
+        let ast = crate::shape::unstrip(&shape, &mut next);
+        *count.lock().unwrap() = 0;
+        let hand = jmespath::Expression::new("", ast, &rt);
+        let got2 = catch(std::panic::AssertUnwindSafe(|| hand.search(Variable::from_json(DOC).unwrap()))).map_err(|p| Failure::new("call-contexts", "panic", p, case.clone()))?;
+        let calls2 = *count.lock().unwrap();
+        let same = match (&got, &got2) {
+            (Ok(a), Ok(b2)) => var_to_j(a).exact_eq(&var_to_j(b2)),
+            (Err(a), Err(b2)) => classify(a).class == classify(b2).class,
+            _ => false,
+        };
+        if !same || calls2 != calls_seen {
+            return Err(Failure::new(
+                "call-contexts",
+                "hand-built-ast-calls-differ",
+                format!("compiled: {:?} with {} invocations; Expression::new on the same tree: {:?} with {} invocations", got.as_ref().map(|v| v.to_string()).map_err(|e| classify(e).detail), calls_seen, got2.as_ref().map(|v| v.to_string()).map_err(|e| classify(e).detail), calls2),
+                case,
+            ));
         }
     }
     // how often the function ran: the reference evaluator's count of not_null calls
